@@ -10,10 +10,12 @@ META = dict(
          "blocks of the behaviour are processed on the restored instance, which must end in the same state as the "
          "uninterrupted run.  Mempool: the saved bytes are loaded into a fresh TxPool on the same chain and transactions, fee "
          "list, size accounting and conflict slots are compared.",
-    note="Fields that no modelled action populates are listed in the evidence (never_populated) and not claimed; the wallet's "
-         "CoinsCheckPoint is not covered.",
+    note="Fields that no modelled action populates are listed in the evidence (never_populated) and not claimed.  Wallet: "
+         "Wallet.tla folds the wallet's coins over the chain's notifications (WalletIsLedgerView); the real CoinsCheckPoint is "
+         "registered with the checkpoint manager, compared after every delivery, serialized / restored / compared field by "
+         "field, and in one variant replaced by its restored copy after every step.",
     technique="TLA+ state-machine models (identity of Checkpoint/Restore) + serialize/deserialize/continue replay on the real "
-              "DPoS, CR and mempool objects at every height of TLC-generated behaviours",
+              "DPoS, CR, mempool and wallet objects at every height of TLC-generated behaviours",
 )
 
 HERE = os.path.dirname(os.path.abspath(__file__))
@@ -52,7 +54,7 @@ def run(chk):
     vf.write_json_lines(path, behs + b2)
     chk.absorb(vf.run_sharded(binary, lambda i, n: ["poolckp", path, str(i), str(n), "100000"]), "mempool checkpoint round trip")
     # ---- DPoS and CR state (drivers of C21 / C22) ----
-    for part in ("C23_dpos", "C23_cr"):
+    for part in ("C23_dpos", "C23_cr", "C23_wallet"):
         m = load(part)
         if m is None:
             chk.notes.append("part %s not available" % part)
@@ -61,5 +63,4 @@ def run(chk):
             m.run_all(chk)
         else:
             chk.notes.append("part %s has no run_all yet" % part)
-    chk.assumptions += ["the wallet's CoinsCheckPoint is not covered"]
     return chk.finish(exhaustive=False)
